@@ -3,6 +3,7 @@ package readsim
 import (
 	"fmt"
 	"os"
+	"pgregory.net/rapid"
 	"testing"
 
 	"github.com/metrico/qryn/zz_verif/simcheck"
@@ -35,7 +36,7 @@ func TestC14(t *testing.T) {
 			t.Errorf("HARNESS-ERROR %v", r)
 		}
 	}()
-	simcheck.Explore(t, c, "C14", genC14, func(s C14Scenario) *simcheck.RunInfo { return RunC14(t, s) })
+	simcheck.Explore(t, c, "C14", func(rt *rapid.T) C14Scenario { s := genC14(rt); s.DayBase = NextDayBase(); return s }, func(s C14Scenario) *simcheck.RunInfo { return RunC14(t, s) })
 }
 
 // TestC09 compares the in-process LogQL pipeline with the reference evaluator.
